@@ -725,7 +725,8 @@ def run_exhaustive(desc, acc):
     U = Universe(ALPHABET)
     first_ops = op_instances(start, U, 2)
     mine = [op for k, op in enumerate(first_ops) if k % desc["nparts"] == desc["part"]]
-    for op1 in mine:
+    for k1, op1 in enumerate(mine):
+        acc.journal({"about_to_run": "exhaustive", "desc": desc, "first_op": k1})  # heartbeat
         dl = _fresh(start, U)
         ref = [U.primary[i] for i in start]
         ctx = {"start": start, "ops": []}
@@ -742,7 +743,9 @@ def run_exhaustive(desc, acc):
         else:
             U2 = U
         ops2 = op_instances(ids1, U2, 1 if depth == 2 else 1)
-        for op2 in ops2:
+        for k2, op2 in enumerate(ops2):
+            if depth >= 3 and k2 % 20 == 0:
+                acc.journal({"about_to_run": "exhaustive", "desc": desc, "first_op": k1, "second_op": k2})
             dl = _fresh(start, U)
             real_apply_quiet(dl, op1, U)
             ctx = {"start": start, "ops": [_jsonable(op1)]}
@@ -969,8 +972,11 @@ def plan(tier, seed):
         nparts = 1 if len(s) < 2 else (3 if tier == "quick" else 8)
         if tier == "thorough" and len(s) >= 3:
             nparts = 16
+        d = depth
+        if tier == "thorough" and s == ["d", "c", "b", "a"]:
+            d = 2  # depth 3 on one four-element start is enough (23 min of the 46 otherwise)
         for p in range(nparts):
-            descs.append({"kind": "exhaustive", "start": s, "depth": depth, "part": p, "nparts": nparts})
+            descs.append({"kind": "exhaustive", "start": s, "depth": d, "part": p, "nparts": nparts})
     nr = 8 if tier == "quick" else 32
     for k in range(nr):
         descs.append({"kind": "random", "rseed": seed * 100003 + k, "cases": 400 if tier == "quick" else 3000})
